@@ -1236,7 +1236,7 @@ Section Loop.
     intros st (L1 & L2 & HA & HB).
     assert (MVR : forall v x, mget (mv st) v = Some x -> x < num_u g).
     { intros v x H. apply HB in H. apply mget_Some_lt in H. lia. }
-    destruct (bfs_loop_init g W (mu st) (mv st) MVR) as (d & E & [HJ HDn]).
+    destruct (bfs_loop_init g (mu st) (mv st) L1 MVR) as (d & E & [HJ HDn]).
     unfold bfs. rewrite E. eexists. eexists. split; [reflexivity|]. cbn [mu mv dist].
     split; [reflexivity|]. split; [reflexivity|]. split.
     { split; [exact L1|]. split; [exact L2|]. apply (j_len _ _ _ _ _ HJ). }
